@@ -15,7 +15,7 @@ pub fn meta() -> Meta {
     Meta {
         id: "C15",
         level: "exploration",
-        rule: "complete enumeration of the finite domains: 4x256 cells of IUPAC, 256 cells of RC_IUPAC, is_ambiguous/base_to_prob on all IUPAC letters+U+gap in both cases, encode/decode/rc/valid on A,C,G,T,U,N both cases; then every ordered sequence of <=4 observed middle bases (both strand modes, incl. self-reverse-complement arms) through a real build, and every code x orientation through the real map strand correction. Non-trivial = a cell/case whose expected value is not the default (0 / '-' / not ambiguous).".into(),
+        rule: "complete enumeration of the finite domains: 4x256 cells of IUPAC, 256 cells of RC_IUPAC, is_ambiguous/base_to_prob on all IUPAC letters+U+gap in both cases, encode/decode/rc/valid on A,C,G,T,U,N both cases; then every ordered sequence of <=4 observed middle bases (both strand modes, incl. self-reverse-complement arms) through a real build, and every code x orientation through the real map strand correction. Non-trivial = a cell/case whose expected value is not the default (0 / '-' / not ambiguous). The weights where they are applied: `ska distance --allow-ambiguous` on a three-sample row (x, y, z) for every ordered pair of the 15 codes (z makes the site variable) prints exactly 1 - sum_b p_x(b) p_y(b) for each pair.".into(),
         assumptions: vec!["U is not part of the union algebra: RC_IUPAC[U] may be 'A' or '-'".into(),
             "lower-case distance weights may be uniform-over-set or all-zero (stored bases are always upper case)".into()],
         exhaustive_when_uncapped: true,
@@ -223,6 +223,45 @@ pub fn run(_ctx: &Ctx, rep: &mut Report) {
                     format!("map failed: {:?}", other),
                     json!({"part":"map-strand","code":code as char,"flipped":flipped}),
                 ),
+            }
+        }
+    }
+    // 8. the weights where they are applied: `ska distance --allow-ambiguous` on a three-sample row (x, y, z) for every
+    // pair of symbols x, y (z makes the site variable): every pairwise distance is 1 - sum_b p_x(b) p_y(b) with p uniform
+    // over the code's set and zero for N
+    {
+        let weight = |c: u8| -> [f64; 4] {
+            // order A, C, G, T
+            let set = if c == b'N' { 0 } else { set_of(c).unwrap_or(0) };
+            let n = set.count_ones() as f64;
+            let mut w = [0.0; 4];
+            for (i, b) in [b'A', b'C', b'G', b'T'].iter().enumerate() {
+                if set & set_of(*b).unwrap() != 0 {
+                    w[i] = 1.0 / n;
+                }
+            }
+            w
+        };
+        let dist = |a: u8, b: u8| -> f64 { 1.0 - weight(a).iter().zip(weight(b)).map(|(p, q)| p * q).sum::<f64>() };
+        let symbols: Vec<u8> = IUPAC_SETS.iter().map(|(c, _)| *c).collect();
+        for x in &symbols {
+            for y in &symbols {
+                rep.evaluations += 1;
+                rep.nontrivial += 1;
+                let z = if x != y { *x } else if *x == b'A' { b'C' } else { b'A' };
+                let mut rows = std::collections::BTreeMap::new();
+                rows.insert("ACGA".to_string(), vec![*x, *y, z]);
+                let t = Table { k, rc: true, names: vec!["s0".into(), "s1".into(), "s2".into()], rows };
+                let want: Vec<String> = [(0usize, 1usize, dist(*x, *y)), (0, 2, dist(*x, z)), (1, 2, dist(*y, z))].iter().map(|(i, j, d)| format!("s{i}\ts{j}\t{:.2}\t{:.5}", d, 0.0)).collect();
+                rep.outcome(&("weights", want.clone()));
+                match super::c14::real_distance(&t, 0.0, true) {
+                    Ok(got) if got == want => {}
+                    other => rep.violate(
+                        format!("distance-weights {} {}", *x as char, *y as char),
+                        format!("ska distance --allow-ambiguous on the row ({}, {}, {}): {:?}, the uniform weights give {:?}", *x as char, *y as char, z as char, other, want),
+                        json!({"part":"distance-weights","x":*x as char,"y":*y as char}),
+                    ),
+                }
             }
         }
     }
